@@ -52,6 +52,7 @@ type Subscription struct {
 	eventQueue      []*rescache.ResourceEvent
 	access          *rescache.Access
 	accessCallbacks []func(*rescache.Access)
+	accessStaleFrom int // Index of the first access callback added after a reaccess while an access request was in flight
 	flags           uint8
 	throttle        *rescache.Throttle
 
@@ -90,6 +91,7 @@ const (
 const (
 	flagAccessCalled uint8 = 1 << iota
 	flagReaccess
+	flagAccessStale
 )
 
 var (
@@ -764,7 +766,7 @@ func (s *Subscription) processModelEvent(event *rescache.ResourceEvent) {
 
 func (s *Subscription) handleReaccess(t *rescache.Throttle) {
 	verifNote("reaccess", "cid", s.c.CID(), "rid", s.rid, "sp", s, "direct", s.direct)
-	s.access = nil
+	s.clearAccess()
 	s.flags &= ^flagReaccess
 
 	if s.direct == 0 {
@@ -873,11 +875,39 @@ func (s *Subscription) reaccess(t *rescache.Throttle) {
 		s.flags |= flagReaccess
 		// The cached access is no longer valid. Requests made before the
 		// deferred reaccess is handled must ask the service again.
-		s.access = nil
+		s.clearAccess()
 		return
 	}
 
 	s.handleReaccess(t)
+}
+
+// clearAccess drops the cached access. The answer to an access request that is
+// already in flight was asked for before the reaccess, and must not be cached
+// either once it arrives.
+func (s *Subscription) clearAccess() {
+	s.access = nil
+	if s.flags&flagAccessCalled != 0 && s.flags&flagAccessStale == 0 {
+		s.flags |= flagAccessStale
+		s.accessStaleFrom = len(s.accessCallbacks)
+	}
+}
+
+// takeAccessCallbacks returns the callbacks to be called with the answer of the
+// access request that just returned, and whether that answer may be cached. The
+// callbacks added after a reaccess are not among them. They ask again.
+func (s *Subscription) takeAccessCallbacks() (cbs []func(*rescache.Access), store bool) {
+	cbs = s.accessCallbacks
+	s.accessCallbacks = nil
+	stale := s.flags&flagAccessStale != 0
+	s.flags &= ^(flagAccessCalled | flagAccessStale)
+	if !stale {
+		return cbs, true
+	}
+	for _, cb := range cbs[s.accessStaleFrom:] {
+		s.loadAccess(cb, nil)
+	}
+	return cbs[:s.accessStaleFrom], false
 }
 
 func parseRID(rid string) (name string, query string) {
@@ -911,13 +941,11 @@ func (s *Subscription) loadAccess(cb func(*rescache.Access), t *rescache.Throttl
 						return
 					}
 
-					cbs := s.accessCallbacks
-					s.flags &= ^flagAccessCalled
+					cbs, store := s.takeAccessCallbacks()
 					// Only store in case of an actual result or system.accessDenied error
-					if access.Error == nil || access.Error.Code == reserr.CodeAccessDenied {
+					if store && (access.Error == nil || access.Error.Code == reserr.CodeAccessDenied) {
 						s.access = access
 					}
-					s.accessCallbacks = nil
 
 					for _, cb := range cbs {
 						cb(access)
@@ -933,13 +961,11 @@ func (s *Subscription) loadAccess(cb func(*rescache.Access), t *rescache.Throttl
 					return
 				}
 
-				cbs := s.accessCallbacks
-				s.flags &= ^flagAccessCalled
+				cbs, store := s.takeAccessCallbacks()
 				// Only store in case of an actual result or system.accessDenied error
-				if access.Error == nil || access.Error.Code == reserr.CodeAccessDenied {
+				if store && (access.Error == nil || access.Error.Code == reserr.CodeAccessDenied) {
 					s.access = access
 				}
-				s.accessCallbacks = nil
 
 				for _, cb := range cbs {
 					cb(access)
